@@ -215,7 +215,7 @@ class Fn:
                 ex = []
                 for n in l["body"]:
                     for s in self.succ(n):
-                        if s not in l["body"]:
+                        if s not in l["body"] and self.blocks[s].term["k"] != "unreachable":
                             ex.append((n, s))
                 l["exits"] = ex
                 out.append(l)
